@@ -1385,3 +1385,40 @@ def stacked_local_problems(url, mh, info=None):
                     return
             if info is not None and any(not alone.has_revision(p.encode()) for p in parents):
                 info["split"] = True
+
+
+def canonical_reads(sim):
+    """Order-insensitive canonical form of batched reads in the event log.
+
+    The record-stream code of the pack formats (Rust) issues the readv requests of ONE
+    batch read pack by pack in an order that depends on object addresses, hence on the
+    heap layout of the run child (which can differ between a run and its re-run through
+    pid- or time-dependent allocations of the local working-tree code).  The set of reads
+    is the same; reads do not change the simulated world.  Each maximal run of consecutive
+    readv events of one actor on packs/ or indices/ files is therefore sorted before the
+    log is hashed.  Call it at the end of execute (in a finally clause)."""
+    log = sim.log
+    vol = sim.vol
+    i = 0
+    n = len(log)
+
+    def batched(e, actor):
+        return len(e) >= 3 and e[0] == actor and e[1] == "readv" and ("/packs/" in e[2] or "/indices/" in e[2]) and "FAULT:" not in "".join(e[3:])
+
+    while i < n:
+        e = log[i]
+        if len(e) >= 3 and e[1] == "readv" and batched(e, e[0]):
+            j = i
+            while j < n and batched(log[j], e[0]):
+                j += 1
+            if j - i > 1:
+                pairs = sorted(((log[k], vol.get(k)) for k in range(i, j)), key=lambda p: p[0])
+                for k, (ev, v) in zip(range(i, j), pairs):
+                    log[k] = ev
+                    if v is None:
+                        vol.pop(k, None)
+                    else:
+                        vol[k] = v
+            i = j
+        else:
+            i += 1
